@@ -213,3 +213,37 @@ def s_uf_dict(ex, args, kwargs, st, node):
 
 
 SYMBOLIC.update({"uf_dict": s_uf_dict})
+
+
+# ---- environment (os.environ is an unknown but fixed map) -------------------------------------------------
+def env_int(name, default):
+    import os
+    return int(os.environ.get(name, default))
+
+
+def s_env_int(ex, args, kwargs, st, node):
+    from .sym import VInt
+    k = ex.need(ex.as_val(args[0], st, node), "s", st, node)
+    d = ex.need_int(ex.as_val(args[1], st, node), st, node)
+    is_set = z3.Function("env.set", StrS, z3.BoolSort())(k)
+    val = z3.Function("env.val", StrS, StrS)(k)
+    return VInt(z3.If(is_set, z3.StrToInt(val), d))
+
+
+SYMBOLIC.update({"env_int": s_env_int})
+
+
+def env_is_int(name):
+    import os
+    v = os.environ.get(name)
+    return v is None or (v.isascii() and v.isdigit())
+
+
+def s_env_is_int(ex, args, kwargs, st, node):
+    k = ex.need(ex.as_val(args[0], st, node), "s", st, node)
+    is_set = z3.Function("env.set", StrS, z3.BoolSort())(k)
+    val = z3.Function("env.val", StrS, StrS)(k)
+    return VBool(z3.Or(z3.Not(is_set), z3.InRe(val, z3.Plus(z3.Range("0", "9")))))
+
+
+SYMBOLIC.update({"env_is_int": s_env_is_int})
